@@ -121,9 +121,83 @@ func recvIn(s ast.Stmt) ast.Expr {
 	return found
 }
 
+// fields whose every access gets a scheduling point of its own (-fields): shared flags that the code
+// may read or write outside the critical section that is supposed to protect them
+var fieldSet = map[string]bool{}
+
+// fieldIn: does the expression/statement header mention X.<field> for a field of fieldSet?
+func fieldIn(nodes ...ast.Node) string {
+	found := ""
+	for _, n := range nodes {
+		if n == nil {
+			continue
+		}
+		ast.Inspect(n, func(m ast.Node) bool {
+			switch x := m.(type) {
+			case *ast.FuncLit, *ast.BlockStmt:
+				return false
+			case *ast.SelectorExpr:
+				if fieldSet[x.Sel.Name] {
+					found = x.Sel.Name
+				}
+			case *ast.KeyValueExpr:
+				if id, ok := x.Key.(*ast.Ident); ok && fieldSet[id.Name] {
+					found = id.Name
+				}
+			}
+			return true
+		})
+	}
+	return found
+}
+
+// header of a statement: the part evaluated before any nested block
+func fieldOfStmt(s ast.Stmt) string {
+	if len(fieldSet) == 0 {
+		return ""
+	}
+	switch x := s.(type) {
+	case *ast.ExprStmt:
+		return fieldIn(x.X)
+	case *ast.AssignStmt:
+		var ns []ast.Node
+		for _, e := range x.Lhs {
+			ns = append(ns, e)
+		}
+		for _, e := range x.Rhs {
+			ns = append(ns, e)
+		}
+		return fieldIn(ns...)
+	case *ast.IfStmt:
+		var init ast.Node
+		if x.Init != nil {
+			init = x.Init
+		}
+		return fieldIn(init, x.Cond)
+	case *ast.ReturnStmt:
+		var ns []ast.Node
+		for _, e := range x.Results {
+			ns = append(ns, e)
+		}
+		return fieldIn(ns...)
+	case *ast.ForStmt:
+		if x.Cond != nil {
+			return fieldIn(x.Cond)
+		}
+	case *ast.SwitchStmt:
+		if x.Tag != nil {
+			return fieldIn(x.Tag)
+		}
+	}
+	return ""
+}
+
 func rewriteBlock(list []ast.Stmt) []ast.Stmt {
 	var out []ast.Stmt
 	for _, s := range list {
+		if f := fieldOfStmt(s); f != "" {
+			out = append(out, yieldStmt("field:"+f, nil))
+		}
 		out = append(out, rewriteStmt(s)...)
 	}
 	return out
@@ -190,6 +264,9 @@ func rewriteStmt(s ast.Stmt) []ast.Stmt {
 		x.Body.List = rewriteBlock(x.Body.List)
 		if x.Else != nil {
 			r := rewriteStmt(x.Else)
+			if f := fieldOfStmt(x.Else); f != "" {
+				r = append([]ast.Stmt{yieldStmt("field:"+f, nil)}, r...)
+			}
 			if len(r) == 1 {
 				x.Else = r[0]
 			} else {
@@ -255,6 +332,7 @@ func main() {
 	only := flag.String("only", "", "comma-separated function names to instrument (default: all)")
 	imp := flag.String("import", "berty.tech/weshnet/v2/internal/vsched", "import path of vsched")
 	skip := flag.String("skip", "", "comma-separated substrings: lock operations on receivers containing one are left alone")
+	fields := flag.String("fields", "", "comma-separated field names: every statement whose header reads or writes X.<field> gets a scheduling point before it")
 	calls := flag.String("calls", "", "comma-separated method names: a call X.Name(...) becomes vsched.At(label, X).Name(...), i.e. a scheduling point right before the call")
 	flag.Parse()
 	callSet := map[string]bool{}
@@ -264,6 +342,11 @@ func main() {
 		}
 	}
 	skipRecv = strings.Split(*skip, ",")
+	for _, n := range strings.Split(*fields, ",") {
+		if n != "" {
+			fieldSet[n] = true
+		}
+	}
 	f, err := parser.ParseFile(fset, *in, nil, parser.ParseComments)
 	if err != nil {
 		fmt.Fprintln(os.Stderr, err)
